@@ -45,7 +45,7 @@ TOTAL_ENTRIES = {
             {"file": r"^src/support/der\.rs$", "name": r"value_len|encode_value|value_cmp"},
             {"file": r"^src/support/serde\.rs$", "name": r"serialize"},
             {"file": r"^src/support/num_bigint\.rs$", "name": r"from"},
-            {"file": r"^src/support/postgres\.rs$", "name": r"accepts"}],
+            {"file": r"^src/support/postgres\.rs$", "name": r"accepts|to_sql"}],
     "C17": [{"file": r"^src/support/(alloy_rlp|fastrlp_03|fastrlp_04|rlp)\.rs$", "name": r"decode"},
             {"file": r"^src/support/scale\.rs$", "name": r"decode|decode_from|read|remaining_len"},
             {"file": r"^src/support/ssz\.rs$", "name": r"from_ssz_bytes"},
